@@ -123,6 +123,7 @@ def run(ctx):
         for fn, args in ((_oracle_reference_matrices, (ctx, relems, tr)), (_oracle_tind_mapping, (ctx, meshes, tr)),
                          (_oracle_repeated_bases, (ctx, meshes, tr)), (_oracle_given_quadrature, (ctx, meshes, tr)),
                          (_oracle_subset_sequences, (ctx, meshes, tr)), (_oracle_order_sweep, (ctx, tr)), (_oracle_derived_bases, (ctx, tr)),
+                         (_oracle_api_forms, (ctx, meshes, tr)),
                          (_oracle_cells, (ctx, meshes, tr)), (_oracle_facets, (ctx, meshes, tr)), (_oracle_invariance, (ctx, meshes, tr)),
                          (_oracle_lagrange, (ctx, tr)), (_oracle_partition_of_unity, (ctx, meshes, tr))):
             try:
@@ -543,6 +544,156 @@ def _oracle_given_quadrature(ctx, meshes, tr):
                 tr.cmp(f'given-quadrature:{kind}:facets', f'Functional(x^{list(e)}) over the boundary with quadrature = the order-{kf} rule and intorder=1',
                        float(functional_of(pl).assemble(fb)), X.facet_integral_value(m, pl, fs), scale_of(m, pl, fone),
                        {**mesh_data(m), 'rule_order': kf, 'intorder': 1, 'monomial': list(e)})
+
+
+# ---- public call forms that forward to the core integration path (coverage audit)
+
+API_COVERAGE = {
+    'CellBasis / Basis(mesh, elem, intorder, elements=array)': 'covered before',
+    'Basis(elements=<callable on midpoints> | <subdomain name> | <list of names> | int)': 'covered now (api-forms: same integral as the index array, exact)',
+    'FacetBasis(facets=array, intorder)': 'covered before',
+    'FacetBasis(facets=<callable on facet midpoints> | <boundary name> | <list of names> | int, side=1)': 'covered now (api-forms)',
+    'InteriorFacetBasis(side=0/1, facets=None | array)': 'covered now (api-forms: exact integral over interior facets)',
+    'aliases Basis / InteriorBasis / BoundaryFacetBasis / ExteriorFacetBasis': 'covered now (identity of classes + one integral)',
+    'CellBasis.boundary / with_elements / with_element, FacetBasis.with_element': 'covered before (derived-basis, every order)',
+    'FacetBasis.trace(x, projection)': 'covered now (api-forms: integrals over the projected trace mesh, tri and quad)',
+    'CompositeBasis (b1 * b2): dx / X / W forwarding': 'covered now (api-forms: Functional over the composite basis, exact)',
+    'CellBasis.project / FacetBasis.project / AbstractBasis.ones / zeros / zero_w': 'covered now (api-forms: int of the projected / interpolated field, exact)',
+    'Functional(...).assemble / elemental': 'covered before',
+    'skfem.asm(functional | plain function, basis | [bases])': 'covered now (api-forms: list of bases sums the integrals)',
+    'Basis(quadrature=(X, W), intorder=...)': 'covered before (given-quadrature)',
+    'Basis(mapping=MappingAffine(mesh, tind=...)) / MappingIsoparametric(mesh, elem)': 'covered before (tind-mapping, repeated-basis)',
+    'Mesh*2 (straight-sided second-order) and periodic Mesh*DG as integration domains': 'covered now (api-forms: Mesh*2.from_mesh; MeshLine1DG before)',
+    'MappingAffine.detA/invA/detB/F/invF/G/detDF/detDG/normals, MappingIsoparametric.*': 'covered before (executed by every basis; T2 + correspondence)',
+    'MappingAffine.DF, Mapping (abstract base)': 'out of scope: Jacobian array for H(div)/H(curl) push-forward (C10); abstract methods raise NotImplementedError',
+    'CellBasis.refinterp / probes / interpolator / point_source': 'out of scope: point evaluation, not integration (C19 / C14)',
+    'AbstractBasis.nodal_dofs / facet_dofs / edge_dofs / interior_dofs / get_dofs / complement_dofs / split*': 'out of scope: DOF numbering and selection (C04 / C07 / C19)',
+    'AbstractBasis.plot / plot3 / draw': 'out of scope: visualisation wrappers',
+    'Refdom.on_facet': 'out of scope: skeleton elements (piecewise, excluded by name in C09)',
+}
+
+
+def _oracle_api_forms(ctx, meshes, tr):
+    import skfem
+    from skfem import asm
+    from skfem.assembly import Basis, CellBasis, FacetBasis, InteriorFacetBasis, Functional
+    import skfem.assembly as ASM
+    ctx.extra['api_coverage'] = API_COVERAGE
+    for nm in ('InteriorBasis', 'BoundaryFacetBasis', 'ExteriorFacetBasis'):
+        cls = getattr(ASM, nm, None)
+        want = CellBasis if nm == 'InteriorBasis' else FacetBasis
+        if cls is not None and cls is not want:
+            ctx.fail(f'api-forms:alias:{nm}', f'skfem.assembly.{nm} is not {want.__name__}', {'alias': nm})
+    if Basis is not CellBasis:
+        ctx.fail('api-forms:alias:Basis', 'skfem.assembly.Basis is not CellBasis', {})
+    seen = set()
+    for kind, general, m in meshes:
+        if (kind, general) in seen:
+            continue
+        seen.add((kind, general))
+        d = m.p.shape[0]
+        elem = default_elem(m)
+        n = 3
+        deg = 2 if (kind == 'quad' and general) else 3
+        e = tuple([deg] + [0] * (d - 1))
+        pl = X.monomial(e)
+        one = {tuple([0] * d): Fraction(1)}
+        F = functional_of(pl)
+        nt_ = m.t.shape[1]
+        measure = float(sum(X.cell_integrals(m, one)))
+        sc = scale_of(m, pl, measure)
+        data = {**mesh_data(m), 'intorder': n, 'monomial': list(e)}
+
+        def chk(form, got, want, scale=sc, extra=None):
+            ctx.count(('api', kind, general, form), nontrivial=True)
+            tr.cmp(f'api-forms:{kind}:{form}', f'Functional(x^{list(e)}) via {form} on a {kind} mesh', got, want, scale, {**data, 'form': form, **(extra or {})})
+        # ---- elements= forms
+        mid = np.asarray(m.p)[:, np.asarray(m.t)].mean(axis=1)
+        thr = float(np.median(mid[0]))
+        cells = [int(c) for c in np.nonzero(mid[0] <= thr)[0]]
+        want = float(sum(X.cell_integrals(m, pl, cells)))
+        chk('elements=callable', float(F.assemble(Basis(m, elem, intorder=n, elements=lambda x: x[0] <= thr))), want, extra={'elements': cells})
+        other_cells = [c for c in range(nt_) if c not in cells]
+        mnamed = m.with_subdomains({'a': np.array(cells), 'b': np.array(other_cells, dtype=np.int64)}) if other_cells else m.with_subdomains({'a': np.array(cells)})
+        chk('elements=name', float(F.assemble(Basis(mnamed, elem, intorder=n, elements='a'))), want, extra={'elements': cells})
+        if other_cells:
+            chk('elements=[names]', float(F.assemble(Basis(mnamed, elem, intorder=n, elements=['a', 'b']))), float(sum(X.cell_integrals(m, pl))))
+        chk('elements=int', float(F.assemble(Basis(m, elem, intorder=n, elements=int(cells[0])))), float(sum(X.cell_integrals(m, pl, [cells[0]]))),
+            extra={'elements': [cells[0]]})
+        # ---- asm wrappers: list of bases sums the integrals; a plain function is wrapped as a Functional
+        b_a = Basis(m, elem, intorder=n, elements=np.array(cells))
+        full = float(sum(X.cell_integrals(m, pl)))
+        if other_cells:
+            b_b = Basis(m, elem, intorder=n, elements=np.array(other_cells))
+            chk('asm(F,[basis_a,basis_b])', float(asm(F, [b_a, b_b])), full)
+        ball = Basis(m, elem, intorder=n)
+        chk('asm(F,basis)', float(asm(F, ball)), full)
+        chk('asm(plain function,basis)', float(asm(lambda w: 1.0 + 0.0 * w.x[0], ball)), measure, scale=measure)
+        chk('@Functional decorator', float(Functional(lambda w: 1.0 + 0.0 * w.x[0]).assemble(ball)), measure, scale=measure)
+        # ---- ones / zeros / project / composite
+        chk('basis.ones()', float(Functional(lambda w: w['u']).assemble(ball, u=ball.ones())), measure, scale=measure)
+        chk('basis.zeros()', float(Functional(lambda w: w['u'] + 1.0).assemble(ball, u=ball.zeros())), measure, scale=measure)
+        if kind != 'wedge':
+            lin = X.padd({tuple([0] * d): Fraction(1)}, X.monomial([1] + [0] * (d - 1)))
+            u = ball.project(lambda x: 1.0 + x[0])
+            chk('basis.project(1+x0)', float(Functional(lambda w: w['u'] ** 2).assemble(ball, u=u)),
+                float(sum(X.cell_integrals(m, X.pmul(lin, lin)))), scale=scale_of(m, X.pmul(lin, lin), measure))
+        chk('basis.zero_w()', float(Functional(lambda w: w['u'] + 1.0).assemble(ball, u=ball.zero_w())), measure, scale=measure)
+        comp = ball * ball
+        chk('CompositeBasis(b*b)', float(F.assemble(comp)), full)
+        if not (np.array_equal(np.asarray(comp.X), np.asarray(ball.X)) and np.array_equal(np.asarray(comp.W), np.asarray(ball.W))
+                and comp.nelems == ball.nelems):
+            ctx.fail(f'api-forms:{kind}:CompositeBasis.X/W', 'CompositeBasis does not forward the quadrature rule / cell count of its parts', data)
+        # ---- straight-sided second-order mesh classes as integration domain
+        cls2 = {'tri': 'MeshTri2', 'quad': 'MeshQuad2', 'tet': 'MeshTet2', 'hex': 'MeshHex2'}.get(kind)
+        if cls2 and hasattr(skfem, cls2):
+            m2 = getattr(skfem, cls2).from_mesh(m)
+            chk(f'{cls2}.from_mesh', float(F.assemble(Basis(m2, elem, intorder=n + (1 if kind in ('quad', 'hex') else 0)))), full)
+        # ---- facets
+        if kind in ('wedge', 'line') or (kind == 'quad' and general):
+            continue
+        f2t = np.asarray(m.f2t)
+        interior = np.nonzero(f2t[1] != -1)[0]
+        bnd = m.boundary_facets()
+        fone = max(X.facet_integral_value(m, one, range(m.facets.shape[1])), 1.0)
+        fsc = scale_of(m, pl, fone)
+        if len(interior):
+            want_i = X.facet_integral_value(m, pl, interior)
+            for side in (0, 1):
+                chk(f'InteriorFacetBasis(side={side})', float(F.assemble(InteriorFacetBasis(m, elem, side=side, intorder=n))), want_i, scale=fsc)
+                chk(f'FacetBasis(facets=interior,side={side})', float(F.assemble(FacetBasis(m, elem, facets=interior, side=side, intorder=n))), want_i, scale=fsc)
+            some = interior[:max(1, len(interior) // 2)]
+            chk('InteriorFacetBasis(facets=subset,side=1)', float(F.assemble(InteriorFacetBasis(m, elem, facets=some, side=1, intorder=n))),
+                X.facet_integral_value(m, pl, some), scale=fsc, extra={'facets': some.tolist()})
+        fmid = np.asarray(m.p)[:, np.asarray(m.facets)].mean(axis=1)
+        fthr = float(np.median(fmid[0][bnd]))
+        fsel = [int(f) for f in bnd if fmid[0][f] <= fthr]
+        want_f = X.facet_integral_value(m, pl, fsel)
+        mb = m.with_boundaries({'left': lambda x: x[0] <= fthr})
+        chk('facets=boundary name', float(F.assemble(FacetBasis(mb, elem, facets='left', intorder=n))), want_f, scale=fsc, extra={'facets': fsel})
+        allsel = [int(f) for f in range(m.facets.shape[1]) if fmid[0][f] <= fthr]
+        chk('facets=callable', float(F.assemble(FacetBasis(m, elem, facets=lambda x: x[0] <= fthr, intorder=n))),
+            X.facet_integral_value(m, pl, allsel), scale=fsc, extra={'facets': allsel})
+        if kind in ('tri', 'tet'):
+            lin = X.padd({tuple([0] * d): Fraction(1)}, X.monomial([1] + [0] * (d - 1)))
+            fbb = FacetBasis(m, elem, facets=bnd, intorder=n)
+            ub = fbb.project(lambda x: 1.0 + x[0])
+            chk('FacetBasis.project(1+x0)', float(Functional(lambda w: w['u'] ** 2).assemble(fbb, u=ub)),
+                X.facet_integral_value(m, X.pmul(lin, lin), bnd), scale=scale_of(m, X.pmul(lin, lin), fone))
+        chk('facets=int', float(F.assemble(FacetBasis(m, elem, facets=int(bnd[0]), intorder=n))), X.facet_integral_value(m, pl, [int(bnd[0])]),
+            scale=fsc, extra={'facets': [int(bnd[0])]})
+        # ---- trace onto the projected boundary mesh (2-D only: the projected cells are intervals of the x-axis)
+        if kind in ('tri', 'quad'):
+            P = np.asarray(m.p)
+            tsel = [int(f) for f in bnd if P[0, m.facets[0, f]] != P[0, m.facets[1, f]]]
+            fb = FacetBasis(m, elem, facets=np.array(tsel), intorder=n)
+            tb, _ = fb.trace(ball.zeros(), lambda p: p[0:1])
+            ends = [(Fraction(float(P[0, m.facets[0, f]])), Fraction(float(P[0, m.facets[1, f]]))) for f in tsel]
+            want_len = float(sum(abs(b - a) for a, b in ends))
+            want_x2 = float(sum(abs(b ** 3 - a ** 3) for a, b in ends) / 3)
+            chk('FacetBasis.trace:length', float(Functional(lambda w: 1.0 + 0.0 * w.x[0]).assemble(tb)), want_len, scale=max(want_len, 1.0), extra={'facets': tsel})
+            chk('FacetBasis.trace:x^2', float(Functional(lambda w: w.x[0] ** 2).assemble(tb)), want_x2,
+                scale=max(want_len, 1.0) * (float(np.abs(P[0]).max()) + 1.0) ** 2, extra={'facets': tsel})
 
 
 # ---- bases obtained through the convenience constructors, every order
